@@ -72,6 +72,12 @@ def rule_kind_dispatch(ctx):
             # the install must sit under an `if` that mentions _isdop, or the
             # branch must have raised for density operators before it
             guarded = isinstance(top, ast.If) and _mentions_isdop(top.test)
+            if guarded:
+                arms = []
+                for arm in (top.body, top.orelse):
+                    arms.append({src_of(x.value) for s2 in arm for x in ast.walk(s2) if isinstance(x, ast.Assign) and any(isinstance(t, ast.Attribute) and t.attr == "_update_method" for t in x.targets)})
+                if arms[0] and arms[1] and arms[0] == arms[1]:
+                    guarded = False  # the test does not change what is installed
             rejected = any(
                 isinstance(s2, ast.If) and _mentions_isdop(s2.test) and any(isinstance(x, ast.Raise) for x in ast.walk(s2))
                 for s2 in body[: body.index(top)]
